@@ -223,6 +223,42 @@ func main() {
 			}
 		}
 	}
+	// One process, one set of key-manager and authority objects over a longer history: bootstrap,
+	// rotation, wipeout of everything, and then bootstrap and rotation again on the emptied store.
+	// What the long-lived objects remember from before the wipeout must not shape what they write
+	// afterwards.
+	{
+		wo := kmfx.NewWorld(kmfx.MemGcs)
+		wo.OneProcess = true
+		steps := []struct {
+			name string
+			run  func() error
+		}{
+			{"one-process/bootstrap", func() error { return wo.Bootstrap(kmfx.DefaultBootstrap(t0), kmfx.Flags{}, nil) }},
+			{"one-process/rotation", func() error {
+				_, e := wo.Rotate(kmfx.RotateOpts{Now: t0.Add(24 * time.Hour)}, kmfx.Flags{}, nil)
+				return e
+			}},
+			{"one-process/wipeout", func() error { return wo.Wipeout(true, true, kmfx.Flags{}) }},
+			{"one-process/bootstrap-after-wipeout", func() error {
+				return wo.Bootstrap(kmfx.DefaultBootstrap(t0.Add(48*time.Hour)), kmfx.Flags{}, nil)
+			}},
+			{"one-process/rotation-after-wipeout", func() error {
+				_, e := wo.Rotate(kmfx.RotateOpts{Now: t0.Add(72 * time.Hour)}, kmfx.Flags{}, nil)
+				return e
+			}},
+		}
+		for _, st := range steps {
+			h, err := record(st.name, wo, st.run)
+			if err != nil {
+				r.Set("one_process_history_stopped_at", st.name+": "+err.Error())
+				break
+			}
+			if !strings.HasSuffix(st.name, "/wipeout") {
+				hs = append(hs, h)
+			}
+		}
+	}
 	// Operations in which one object write fails (the process carries on and reports the error) or
 	// is refused (certificate object already exists, no --overwrite): the writes that still reach
 	// storage form a history too, and the manifest must not get ahead of the certificates in it.
